@@ -386,7 +386,7 @@ def literal_value(ty, toks, methods, aux, mdefaults):
         body = toks[1:] if neg else toks
         if len(body) == 1:
             _, v = number_value(body[0])
-            return "Val.real %s" % lean_rat(-v if neg else v)
+            return "Val.real (XReal.fin %s)" % lean_rat(-v if neg else v)
         raise TranslateError("ScalarType default is not a literal: " + " ".join(toks))
     if ty == "bool":
         if toks in (["true"], ["false"]):
@@ -1251,6 +1251,117 @@ def parse_embed_using(mt, methods):
     return steps
 
 
+# ------------------------------------------------------------------------------------------------ predicates.hpp
+class PBodyParser:
+    """`return <expr>;` of a predicate's operator()(T v): comparisons of v / lower / upper / literals under && || !"""
+
+    def __init__(self, toks, where):
+        self.t, self.i, self.where = toks, 0, where
+
+    def peek(self):
+        return self.t[self.i] if self.i < len(self.t) else None
+
+    def take(self):
+        t = self.peek()
+        self.i += 1
+        return t
+
+    def fail(self, msg):
+        raise TranslateError("%s in predicate %s: %s" % (msg, self.where, " ".join(self.t)))
+
+    def parse(self):
+        r = self.disj()
+        if self.peek() is not None:
+            self.fail("trailing tokens")
+        return r
+
+    def disj(self):
+        l = self.conj()
+        while self.peek() == "||":
+            self.take()
+            l = "PBody.or (%s) (%s)" % (l, self.conj())
+        return l
+
+    def conj(self):
+        l = self.neg()
+        while self.peek() == "&&":
+            self.take()
+            l = "PBody.and (%s) (%s)" % (l, self.neg())
+        return l
+
+    def neg(self):
+        if self.peek() == "!":
+            self.take()
+            return "PBody.not (%s)" % self.neg()
+        if self.peek() == "(":
+            # parenthesised boolean expression or parenthesised comparison
+            save = self.i
+            self.take()
+            r = self.disj()
+            if self.take() != ")":
+                self.fail("unbalanced parentheses")
+            return r
+        return self.comparison()
+
+    def atom(self):
+        t = self.take()
+        if t == "v":
+            return "PAtom.v"
+        if t in ("lower", "upper"):
+            return "PAtom." + t
+        neg = False
+        if t == "-":
+            neg, t = True, self.take()
+        if t is not None and re.match(r"[\d.]", t):
+            _, val = number_value(t)
+            return "PAtom.lit %s" % lean_rat(-val if neg else val)
+        self.fail("unsupported operand %r" % t)
+
+    def comparison(self):
+        a = self.atom()
+        op = self.take()
+        if op not in CMP:
+            self.fail("expected a comparison operator, got %r" % op)
+        b = self.atom()
+        return "PBody.cmp %s %s %s" % (paren(a), CMP[op], paren(b))
+
+
+def parse_predicates(pp):
+    toks = tokenize(pp["tapkee/predicates.hpp"])
+    out = {}
+    for name, ctor in (("Positivity", "positivity"), ("NonNegativity", "nonNegativity"), ("InRange", "inRange"),
+                       ("InClosedRange", "inClosedRange")):
+        i = find_seq(toks, ["struct", name])
+        if i < 0:
+            raise TranslateError("predicate %s not found" % name)
+        b = toks.index("{", i)
+        body = toks[b + 1:match_close(toks, b)]
+        fb = function_body(body, ["operator", "(", ")"])
+        if fb is None:
+            raise TranslateError("predicate %s has no operator()" % name)
+        fbody, params, _ = fb
+        pn = [a[-1] for a in split_top(params)]
+        if pn != ["v"]:
+            # normalise the parameter name
+            if len(pn) != 1:
+                raise TranslateError("predicate %s: operator() takes %d arguments" % (name, len(pn)))
+            fbody = ["v" if t == pn[0] else t for t in fbody]
+        sts = statements(fbody)
+        if len(sts) != 1 or sts[0][0] != "return" or sts[0][-1] != ";":
+            raise TranslateError("predicate %s: operator() is not a single return statement" % name)
+        out[ctor] = PBodyParser(sts[0][1:-1], name).parse()
+        # the constructor must store its arguments in lower / upper in order
+        if PREDICATES[name] == 2:
+            c = function_body(body, [name])
+            if c is None:
+                raise TranslateError("predicate %s has no constructor" % name)
+            _, cparams, inits = c
+            cp = [a[-1] for a in split_top(cparams)]
+            if find_seq(inits, ["lower", "(", cp[0], ")"]) < 0 or find_seq(inits, ["upper", "(", cp[1], ")"]) < 0:
+                raise TranslateError("predicate %s: constructor does not initialise lower/upper from its arguments in order" % name)
+    return out
+
+
 # ------------------------------------------------------------------------------------------------ main entry
 def translate(ctx=None, repo=None, repo_hash=None, outdir=None):
     repo = repo or vlib.REPO
@@ -1274,6 +1385,17 @@ def translate(ctx=None, repo=None, repo_hash=None, outdir=None):
     front_steps, rethrow, sclasses = parse_embed_front(pp, kwidents, ctor_steps, mt, methods, kwtypes)
     dispatch = parse_embed_using.dispatch
     files = {}
+    if "tapkee/predicates.hpp" not in pp:
+        raise TranslateError("header tapkee/predicates.hpp not reached by the preprocessor")
+    pbodies = parse_predicates(pp)
+    L = [HEADER % "include/tapkee/predicates.hpp", "import TapkeeVerif.Model.FrontTypes", "namespace TapkeeVerif.Gen",
+         "open TapkeeVerif.Front", "",
+         "/-- the expression `operator()(T v)` of each predicate template returns (comparisons are IEEE comparisons) -/",
+         "def predBody : PredKind → PBody"]
+    for ctor in ("positivity", "nonNegativity", "inRange", "inClosedRange"):
+        L.append("  | .%s => %s" % (ctor, pbodies[ctor]))
+    L.append("\nend TapkeeVerif.Gen\n")
+    files["Predicates.lean"] = "\n".join(L)
     src_note = "include/tapkee/{defines/methods.hpp, methods.hpp}"
 
     # ---- Gen/Methods
